@@ -484,13 +484,16 @@ class Session:
 
     CUT_LIMIT = 400
 
-    def __init__(self, solver):
+    def __init__(self, solver, timeout_ms=None):
         from cspuz.expr import Op
+        self.timeout_ms = timeout_ms
         self.graph_nodes = [c for c in solver.constraints
                             if not isinstance(c, bool) and c.op == Op.GRAPH_ACTIVE_VERTICES_CONNECTED]
         gids = {id(c) for c in self.graph_nodes}
         plain = [c for c in solver.constraints if id(c) not in gids]
         self.zs, self.zv = z3_program(solver.variables, plain)
+        if timeout_ms:
+            self.zs.set("timeout", int(timeout_ms))
         self.solver = solver
         self._decoded = [self._decode(node) for node in self.graph_nodes]
 
@@ -558,10 +561,16 @@ class Session:
                          + [z3.And([z3.Not(acts[t]) for t in rest])])
         return None
 
+    def _check(self, lits):
+        import z3
+        r = self.zs.check(*lits)
+        if r == z3.unknown:
+            raise Undecided("z3 gave up (%s)" % self.zs.reason_unknown())
+        return r == z3.sat
+
     def _solve(self, lits):
         """(sat, model) of plain part + primitive nodes under the assumption literals"""
-        import z3
-        if self.zs.check(*lits) != z3.sat:
+        if not self._check(lits):
             return False, None
         cut = self._graph_cut() if self.graph_nodes else None
         if cut is None:
@@ -570,7 +579,7 @@ class Session:
         try:
             for _ in range(self.CUT_LIMIT):
                 self.zs.add(cut)
-                if self.zs.check(*lits) != z3.sat:
+                if not self._check(lits):
                     return False, None
                 cut = self._graph_cut()
                 if cut is None:
@@ -665,6 +674,47 @@ def random_trail(rng, h, w, max_len):
         if p == start and deg[p] == 2 and rng.random() < 0.7:
             break
     return used
+
+
+def weave_patterns(h, w, rng):
+    """dense trails: every interior line of the frame drawn from border to border (all interior points 4-way), the
+    line ends joined in consecutive pairs along the border (two ways); then the same with one connector opened,
+    and with one further segment removed.  On even x even frames the closed ones are single strands with far more
+    segments than the frame has lattice points (the rank range of the non-primitive encoding)."""
+    if h < 2 or w < 2:
+        return
+    cyc = ([(0, x) for x in range(0, w)] + [(y, w) for y in range(0, h)] + [(h, x) for x in range(w, 0, -1)]
+           + [(y, 0) for y in range(h, 0, -1)])
+    corners = {(0, 0), (0, w), (h, 0), (h, w)}
+    idx = [i for i, p in enumerate(cyc) if p not in corners]
+    n = len(idx)
+    lines = set()
+    for y in range(1, h):
+        lines |= walk_segments(line_points((y, 0), (y, w)))
+    for x in range(1, w):
+        lines |= walk_segments(line_points((0, x), (h, x)))
+    for off in (0, 1):
+        conns = []
+        for k in range(off, n + off - 1, 2):
+            a, b = idx[k % n], idx[(k + 1) % n]
+            c, i = set(), a
+            while i != b:
+                j = (i + 1) % len(cyc)
+                c.add(_sg(cyc[i], cyc[j]))
+                i = j
+            conns.append(c)
+        full = set(lines)
+        for c in conns:
+            full |= c
+        yield "weave-closed", full
+        for c in rng.sample(conns, min(3, len(conns))):
+            yield "weave-open", full - c
+            rest = sorted(full - c, key=sorted)
+            yield "weave-open-minus-1", (full - c) - {rng.choice(rest)}
+        yield "weave-minus-1", full - {rng.choice(sorted(full, key=sorted))}
+        if len(conns) >= 2:
+            c1, c2 = rng.sample(conns, 2)
+            yield "weave-two-open", full - c1 - c2
 
 
 def targeted_patterns(h, w, rng, n_random=60, pair_cap=160, cycle_cap=240):
@@ -796,6 +846,8 @@ def targeted_patterns(h, w, rng, n_random=60, pair_cap=160, cycle_cap=240):
         b = (rng.randint(0, h), rng.randint(0, w))
         path = poly_segments([a, (a[0], b[1]), b]) if rng.random() < 0.5 else poly_segments([a, (b[0], a[1]), b])
         add("cycle-space-plus-path", even(chosen) ^ path)
+    for (tag, sgs) in weave_patterns(h, w, rng):
+        add(tag, sgs)
     # random trails, and the same with one segment toggled
     nseg = len(segs)
     for _ in range(n_random):
@@ -832,6 +884,14 @@ def targeted_frames(ctx):
     quick = [(2, 3), (3, 2), (2, 4), (4, 2), (3, 3), (3, 4), (4, 3)]
     if ctx.thorough:
         return quick + [(2, 5), (5, 2), (4, 4), (3, 5), (5, 3), (2, 6)]
+    return quick
+
+
+def weave_frames(ctx):
+    """larger frames on which only the dense weaves (and the empty pattern) are tried"""
+    quick = [(4, 4), (4, 6), (6, 4), (6, 6)]
+    if ctx.thorough:
+        return quick + [(5, 5), (5, 6), (6, 5), (4, 8), (8, 4), (6, 8), (8, 6)]
     return quick
 
 
@@ -909,10 +969,15 @@ def check_pattern(ctx, sess, fr, h, w, sc, prim, segs, bits, outs, variant="plai
               "segments": [[sorted(s), d] for (s, d) in segs]}
     if family:
         detail["pattern_family"] = family
+    def undecided(ex):
+        if sess.timeout_ms:         # a time-limited session (large frames): counted, not an error
+            ctx.count("undecided-within-%dms" % sess.timeout_ms)
+        else:
+            ctx.harness_error("%s: %s" % (key, ex))
     try:
         got, model = sess.decide(fixed)
     except Undecided as ex:
-        ctx.harness_error("%s: %s" % (key, ex))
+        undecided(ex)
         return
     ctx.prop_case("sat-vs-oracle", (h, w, sc, prim, pat, variant))
     if got != exp_ok:
@@ -936,7 +1001,7 @@ def check_pattern(ctx, sess, fr, h, w, sc, prim, segs, bits, outs, variant="plai
         try:
             other = sess.other_values(fixed, expected)
         except Undecided as ex:
-            ctx.harness_error("%s: %s" % (key, ex))
+            undecided(ex)
             return
         if other is not None:
             bad = [(where[v.id], val, other[v.id]) for v, val in expected if other[v.id] != val]
@@ -961,7 +1026,7 @@ def _outputs_ok(outs, h, w):
     return True
 
 
-def search_one(ctx, h, w, sc, prim, patterns=None, variant="plain", const_mode=None):
+def search_one(ctx, h, w, sc, prim, patterns=None, variant="plain", const_mode=None, timeout_ms=None):
     """one Solver, one frame of fresh variables, the calls of `variant`, then every pattern by assumptions.
     const_mode "const" / "half": the pattern is given as Python True/False (all / every other segment) in the
     frame's arrays instead -- then a Solver per pattern."""
@@ -989,7 +1054,7 @@ def search_one(ctx, h, w, sc, prim, patterns=None, variant="plain", const_mode=N
                           {"h": h, "w": w, "single_cycle": sc, "use_graph_primitive": prim, "variant": variant,
                            "const_mode": const_mode, "error": r[1] if r[0] == "err" else None})
             return None
-        return fr, r[1], Session(s)
+        return fr, r[1], Session(s, timeout_ms)
 
     if const_mode is None:
         st = setup(lambda s: BoolGridFrame(s, h, w))
@@ -1122,7 +1187,8 @@ class _Recorder:
 
 
 KEEP_FAMILIES = {"empty", "eight", "plus", "plus-long", "curl", "trail-open", "trail-closed", "square-chain", "snake",
-                 "all-lines", "two-eights"}
+                 "all-lines", "two-eights", "weave-closed", "weave-open", "weave-open-minus-1", "weave-minus-1",
+                 "weave-two-open"}
 
 
 def _job_patterns(rec, job):
@@ -1146,6 +1212,16 @@ def _job_patterns(rec, job):
         return [bits for i, bits in enumerate(crossing_patterns(h, w)) if i % stride == off]
     if mode == "empty":
         return [("empty", tuple([False] * ((h + 1) * w + h * (w + 1))))]
+    if mode == "weave":
+        segs = lattice_segments(h, w)
+        index = {sg: i for i, (sg, _) in enumerate(segs)}
+        out = [("empty", tuple([False] * len(segs)))]
+        for (tag, sgs) in weave_patterns(h, w, rec.rng):
+            bits = [False] * len(segs)
+            for sg in sgs:
+                bits[index[sg]] = True
+            out.append((tag, tuple(bits)))
+        return out
     raise ValueError(mode)
 
 
@@ -1157,7 +1233,7 @@ def _search_job(job):
         j["h"], j["w"] = h, w
         try:
             search_one(rec, h, w, job["sc"], job["prim"], _job_patterns(rec, j), job.get("variant", "plain"),
-                       job.get("const_mode"))
+                       job.get("const_mode"), job.get("timeout_ms"))
         except Exception:
             rec.harness_error("job %r: %s" % ({k: j[k] for k in ("h", "w", "sc", "prim", "mode")},
                                               traceback.format_exc()[-1500:]))
@@ -1196,6 +1272,9 @@ def search_jobs(ctx):
     for (h, w) in [(2, 3), (3, 2)]:
         for (sc, prim) in both:
             job([(h, w)], sc, prim, "crossing", 6000 if sc else 9000, stride=1 if (big or sc) else 3)
+    for (h, w) in weave_frames(ctx):
+        for (sc, prim) in both:
+            job([(h, w)], sc, prim, "weave", 8000 if not prim else 2000, timeout_ms=20000 if big else 2500)
     # (3) no segment drawn, on every frame size: both arrays forced false everywhere
     for (sc, prim) in both:
         for variant in ("plain", "alias") if sc else ("plain",):
